@@ -33,6 +33,18 @@ TWINS = [
     ("C19-b9", "src/nunavut/jinja/jinja2/parser.py", "        return bool(marker) and marker[-1] == '*'", "        return bool(marker) and marker[-1] in '*%'", "C19", "R-C19-PARSER"),
     ("C20-b9", "src/nunavut/lang/html/__init__.py", "        service_name, _ = instance.full_name.rsplit(\".\", 1)", "        service_name, _ = instance.full_name.split(\".\", 1)", "C20", "R-C20-ANCHOR"),
     ("C13-b10", "src/nunavut/lang/_language.py", "        loaded = self._load_config()\n        self._config = loaded\n        return loaded", "        loaded = self._load_config()\n        return loaded", "C13", "R-C13-ORDER"),
+    # round 8, second batch
+    ("C19-b11", "src/nunavut/jinja/extensions.py", '_ELIF_TAGS = (("name:elifuses", False), ("name:elifnuses", True))', '_ELIF_TAGS = (("name:elifuses", True), ("name:elifnuses", False))', "C19", "R-C19-EXT"),
+    ("C19-b11", "src/nunavut/jinja/extensions.py", '_QUERY_METHODS = {False: "_use_query", True: "_use_nquery"}', '_QUERY_METHODS = {False: "_use_query", True: "_use_query"}', "C19", "R-C19-EXT"),
+    ("C09-b11", "src/nunavut/lang/_common.py", "encoded = token_pattern.sub(self._encoding_filter, encoded)", "encoded = token_pattern.sub(self._encoding_filter, token)", "C09", "R-C09-IDENTITY"),
+    ("C09-b11", "src/nunavut/lang/_common.py", "            self._verify_encoding_rules(token, encoding_rules)\n", "            pass\n", "C09", "R-C09-RECHECK"),
+    ("C09-b11", "src/nunavut/lang/_common.py", "if any(token_pattern.match(token) for token_pattern in encoding_rules):",
+     'if any(token_pattern.match(token) for token_pattern in self._token_encoding_rules_by_identifier_type["all"]):', "C09", "R-C09-IDENTITY"),
+    ("C02-b11", "src/nunavut/lang/py/templates/deserialization.j2", "{{ _deserialize_array_elements(t.element_type, ref, length_ref, offset + t.length_field_type.bit_length,",
+     "{{ _deserialize_array_elements(t.element_type, ref, length_ref, offset,", "C02", "R-C02-PY-ALIGN"),
+    ("C02-b12", "src/nunavut/lang/c/templates/deserialization.j2", "'offset_bits < capacity_bits'", "'offset_bits <= capacity_bits'", "C02", "R-C02-BOUNDED-READ"),
+    ("C02-b12", "src/nunavut/lang/c/templates/deserialization.j2", "|format(t.bit_length), '0U')", "|format(t.bit_length), '1U')", "C02", "R-C02-BOUNDED-READ"),
+    ("C02-b12", "src/nunavut/lang/c/templates/deserialization.j2", "        {{ reference }} = {{ missing }};", "        (void) 0;", "C02", "R-C02-BOUNDED-READ"),
 ]
 
 
